@@ -479,3 +479,5 @@ def run(chk, tier):
     chk.guard('C03.e', lambda: c19.rule_flush(chk, prog, tier))
     chk.guard('C03.i', lambda: rule_undefined_labels(chk, prog, tier))
     chk.guard('C03.j', lambda: rule_printer(chk, prog, tier))
+    from props import c07
+    chk.guard('C07.b', lambda: c07.rule_emitdata(chk, prog, tier))          # a data definition has exactly the size of the object: items and zero padding add up
